@@ -331,9 +331,11 @@ def m_c04(ctx, st):
         if pl:
             allowed |= {("listing", (pl["kowner"], lid)), ("listing", (a, lid)), ("bucket", (a, bid)), ("bucket", (pl["kowner"], bid))}
             # only a *valid* purchase may take a listing from its owner: finalized and unsold before
-            if pl["kowner"] != a and (pl["status"] != "FinalizedReady" or pl["claimant"] is not None):
+            expired = pl["exp"] is not None and int(pl["exp"]) < int(st["pre"]["time_ns"])
+            if pl["kowner"] != a and (pl["status"] != "FinalizedReady" or pl["claimant"] is not None or expired):
                 ctx.add("C04", "foreign_record_taken_by_invalid_purchase", st["i"],
-                        "%s bought listing %d of %s although it was %s / claimant %r" % (a, lid, pl["kowner"], pl["status"], pl["claimant"]))
+                        "%s bought listing %d of %s although it was %s / claimant %r%s" % (a, lid, pl["kowner"], pl["status"], pl["claimant"],
+                                                                                          " / expired" if expired else ""))
             # the proceeds are filed under (seller, bid): a record the seller already holds there must not be overwritten
             if pl["kowner"] != a and (pl["kowner"], bid) in bmap(st["pre"]):
                 ctx.add("C04", "foreign_record_overwritten", st["i"], "bucket %r of the seller was overwritten by %s's purchase" % ((pl["kowner"], bid), a))
@@ -475,6 +477,15 @@ def m_c06_c11(ctx, st):
             got[("other", repr(m), 0)] += 1
     if got != exp_msgs:
         ctx.add("C06", "royalty_messages", st["i"], "royalty messages %r, expected %r" % (sorted(got.items(), key=repr), sorted(exp_msgs.items(), key=repr)))
+    # C17: one payout per non-zero (asset, collection) pair, to the right address
+    pairs_got, pairs_exp = Counter(), Counter()
+    for (key, to, _), n in got.items():
+        pairs_got[(key, to)] += n
+    for (key, to, _), n in exp_msgs.items():
+        pairs_exp[(key, to)] += n
+    if pairs_got != pairs_exp:
+        ctx.add("C17", "payouts_not_one_per_pair", st["i"], "payouts per (asset, address) %r, expected %r"
+                % (sorted(pairs_got.items(), key=repr), sorted(pairs_exp.items(), key=repr)))
     wp, wq = wallets(st["pre"]), wallets(st["post"])
     old_fee = fee_counter(v["b"]["fee"])
     for acct in set(wp) | set(wq):
@@ -805,6 +816,19 @@ def m_c13(ctx, st, hist):
             if k in fq and fq[k] != f:
                 ctx.add("C13", "recorded_fee_changed", st["i"], "pending fee of %r changed from %r to %r" % (k, f, fq[k]))
 
+    if st["outcome"] == "ok" and op["t"] == "exec" and op.get("fail") is None and op["msg"]["k"] in PAYOUT_KINDS | {"buy"}:
+        # a recorded fee leaves for the pool in the denomination it was recorded in, whatever is in force now
+        k, a = op["msg"]["k"], op["sender"]
+        if k == "buy":
+            rec = bmap(pre).get((a, op["msg"]["bid"]))
+        else:
+            rec = (bmap(pre) if k == "remove_bucket" else lmap(pre)).get((a, op["msg"]["id"]))
+        if rec is not None:
+            got = set(d for m in st["msgs"] if m["kind"] == "fund_pool" for d, x in m["coins"] if int(x) > 0)
+            exp = set(d for (_, d), x in fee_counter(rec["fee"]).items() if x > 0)
+            if got != exp:
+                ctx.add("C13", "recorded_fee_paid_in_other_denom", st["i"],
+                        "%s sent %r to the pool, the fee was recorded as %r" % (k, sorted(got), rec["fee"]))
 
 def m_c14(ctx, st):
     op = st["op"]
